@@ -138,7 +138,14 @@ func (fr *frame) execInstr(ins ssa.Instruction, st *State, reach *string) bool {
 		}
 		v := fr.val(x.Val)
 		if v.P != nil && !v.P.clean() {
-			panic(unsupported("storing an interior pointer: " + x.String()))
+			// an interior pointer escapes into the heap: it is replaced by a reference to a fresh object with
+			// unconstrained contents (reads through the stored value are over-approximated; writes through it are not tracked)
+			if !ex.inRepo(fr.fn) {
+				ex.used["abstracted: interior pointer stored by dependency code ("+fr.fn.String()+"): reads through it over-approximated, writes through it untracked"] = true
+				v = Val{T: v.T, L: []string{ex.alloc(st)}}
+			} else {
+				panic(unsupported("storing an interior pointer: " + x.String()))
+			}
 		}
 		ex.store(st, p, v)
 		if v.F != nil {
@@ -639,12 +646,16 @@ func (ex *Exec) makeInterface(st *State, v Val, t types.Type) Val {
 		if v.P != nil && !v.P.clean() {
 			panic(unsupported("interior pointer converted to interface"))
 		}
-		return Val{L: []string{tag, v.L[0]}}
+		out := Val{L: []string{ite(eq(v.L[0], "0"), tag, tag), v.L[0]}}
+		ex.noteErrorCreated(st, out, t, v.L[0])
+		return out
 	}
 	ls := leaves(t)
 	if len(ls) == 1 && ls[0].Sort == sInt {
 		// scalar integers (and refs) are stored unboxed in the ref slot
-		return Val{L: []string{tag, v.L[0]}}
+		out := Val{L: []string{tag, v.L[0]}}
+		ex.noteErrorCreated(st, out, t, v.L[0])
+		return out
 	}
 	r := ex.alloc(st)
 	for j, l := range ls {
@@ -653,7 +664,9 @@ func (ex *Exec) makeInterface(st *State, v Val, t types.Type) Val {
 		h := ex.heapGet(st, key, srt)
 		ex.heapSet(st, key, srt, sto(h, r, v.L[j]))
 	}
-	return Val{L: []string{tag, r}}
+	out := Val{L: []string{tag, r}}
+	ex.noteErrorCreated(st, out, t, r)
+	return out
 }
 
 func (ex *Exec) unbox(st *State, iface Val, t types.Type) Val {
